@@ -1,5 +1,13 @@
-//! shared generators (type-directed over the repo's own types)
+//! shared generators (type-directed over the repo's own types) and byte mutators
 use crate::{Rng, R};
+use elements::confidential::{Asset, Nonce, Value};
+use elements::secp256k1_zkp::{self as zkp, Generator, PedersenCommitment, PublicKey, RangeProof, SecretKey, SurjectionProof, Tweak};
+use elements::{
+    AssetId, AssetIssuance, Block, BlockExtData, BlockHeader, LockTime, OutPoint, Script, Sequence, Transaction, TxIn,
+    TxInWitness, TxOut, TxOutWitness, Txid,
+};
+use elements::dynafed::{FullParams, Params};
+use elements::hashes::Hash;
 
 pub fn bytes(rng: &mut R, n: usize) -> Vec<u8> {
     let mut v = vec![0u8; n];
@@ -13,7 +21,7 @@ pub fn arr32(rng: &mut R) -> [u8; 32] {
 }
 /// a length on either side of interesting boundaries
 pub fn small_len(rng: &mut R) -> usize {
-    match rng.gen_range(0..10) {
+    match rng.gen_range(0..12) {
         0 => 0,
         1 => 1,
         2 => rng.gen_range(2..8),
@@ -23,6 +31,319 @@ pub fn small_len(rng: &mut R) -> usize {
         6 => rng.gen_range(40..120),
         7 => 0xfc,
         8 => 0xfd,
+        9 => rng.gen_range(0xfe..0x140),
         _ => rng.gen_range(0..300),
     }
+}
+pub fn u64_edge(rng: &mut R) -> u64 {
+    match rng.gen_range(0..8) {
+        0 => 0,
+        1 => 1,
+        2 => u64::MAX,
+        3 => rng.gen_range(0..100_000),
+        4 => 2_100_000_000_000_000,
+        5 => 1u64 << rng.gen_range(0..64),
+        _ => rng.gen(),
+    }
+}
+pub fn u32_edge(rng: &mut R) -> u32 {
+    match rng.gen_range(0..8) {
+        0 => 0,
+        1 => 1,
+        2 => u32::MAX,
+        3 => 499_999_999,
+        4 => 500_000_000,
+        5 => 1u32 << rng.gen_range(0..32),
+        _ => rng.gen(),
+    }
+}
+
+pub fn seckey(rng: &mut R) -> SecretKey {
+    loop {
+        if let Ok(k) = SecretKey::from_slice(&arr32(rng)) {
+            return k;
+        }
+    }
+}
+pub fn tweak(rng: &mut R) -> Tweak {
+    loop {
+        if let Ok(k) = Tweak::from_slice(&arr32(rng)) {
+            return k;
+        }
+    }
+}
+pub fn pubkey(rng: &mut R) -> PublicKey {
+    PublicKey::from_secret_key(zkp::SECP256K1, &seckey(rng))
+}
+/// a 33-byte valid point with the given prefix base (2, 8, 10)
+pub fn point33(rng: &mut R, base: u8) -> [u8; 33] {
+    let mut p = pubkey(rng).serialize();
+    p[0] = base | (rng.gen::<u8>() & 1);
+    p
+}
+pub fn commitment(rng: &mut R) -> PedersenCommitment {
+    PedersenCommitment::from_slice(&point33(rng, 8)).unwrap()
+}
+pub fn generator(rng: &mut R) -> Generator {
+    Generator::from_slice(&point33(rng, 10)).unwrap()
+}
+pub fn asset_id(rng: &mut R) -> AssetId {
+    AssetId::from_byte_array(arr32(rng))
+}
+
+pub fn value(rng: &mut R) -> Value {
+    match rng.gen_range(0..5) {
+        0 => Value::Null,
+        1 | 2 => Value::Explicit(u64_edge(rng)),
+        _ => Value::Confidential(commitment(rng)),
+    }
+}
+pub fn asset(rng: &mut R) -> Asset {
+    match rng.gen_range(0..5) {
+        0 => Asset::Null,
+        1 | 2 => Asset::Explicit(asset_id(rng)),
+        _ => Asset::Confidential(generator(rng)),
+    }
+}
+pub fn nonce(rng: &mut R) -> Nonce {
+    match rng.gen_range(0..5) {
+        0 | 1 => Nonce::Null,
+        2 => Nonce::Explicit(arr32(rng)),
+        _ => Nonce::Confidential(pubkey(rng)),
+    }
+}
+
+/// synthetic bytes that satisfy the range-proof *parse* rules (header), random body
+pub fn rangeproof_bytes(rng: &mut R) -> Vec<u8> {
+    loop {
+        let len = match rng.gen_range(0..6) {
+            0 => 65,
+            1 => 66,
+            2 => rng.gen_range(65..300),
+            3 => 0xfd,
+            4 => rng.gen_range(2000..5200),
+            _ => rng.gen_range(65..700),
+        };
+        let mut v = bytes(rng, len);
+        let has_nz = rng.gen_bool(0.7);
+        let has_min = rng.gen_bool(0.3);
+        v[0] = (if has_nz { 64 } else { 0 }) | (if has_min { 32 } else { 0 }) | rng.gen_range(0..19u8);
+        if has_nz {
+            v[1] = rng.gen_range(0..64);
+        }
+        if RangeProof::from_slice(&v).is_ok() {
+            return v;
+        }
+    }
+}
+pub fn rangeproof(rng: &mut R) -> Box<RangeProof> {
+    Box::new(RangeProof::from_slice(&rangeproof_bytes(rng)).unwrap())
+}
+/// synthetic bytes that satisfy the surjection-proof parse rules
+pub fn surjproof_bytes(rng: &mut R) -> Vec<u8> {
+    let n: usize = match rng.gen_range(0..5) {
+        0 => 1,
+        1 => rng.gen_range(1..9),
+        2 => 8,
+        3 => rng.gen_range(1..257),
+        _ => 3,
+    };
+    let bl = (n + 7) / 8;
+    let mut bitmap = bytes(rng, bl);
+    // at most a few used inputs to keep it small
+    for b in bitmap.iter_mut() {
+        *b &= rng.gen::<u8>() & rng.gen::<u8>();
+    }
+    if n % 8 != 0 {
+        let mask = !(0xffu8 << (n % 8));
+        bitmap[bl - 1] &= mask;
+    }
+    let used: u32 = bitmap.iter().map(|b| b.count_ones()).sum();
+    let mut v = vec![(n % 256) as u8, (n / 256) as u8];
+    v.extend_from_slice(&bitmap);
+    v.extend_from_slice(&bytes(rng, 32 * (1 + used as usize)));
+    assert!(SurjectionProof::from_slice(&v).is_ok());
+    v
+}
+pub fn surjproof(rng: &mut R) -> Box<SurjectionProof> {
+    Box::new(SurjectionProof::from_slice(&surjproof_bytes(rng)).unwrap())
+}
+
+pub fn script(rng: &mut R) -> Script {
+    let n = small_len(rng);
+    Script::from(bytes(rng, n))
+}
+pub fn stack(rng: &mut R) -> Vec<Vec<u8>> {
+    let n = match rng.gen_range(0..6) {
+        0 | 1 => 0,
+        2 => 1,
+        3 => 2,
+        4 => rng.gen_range(3..6),
+        _ => rng.gen_range(0..4),
+    };
+    (0..n).map(|_| { let l = small_len(rng); bytes(rng, l) }).collect()
+}
+
+pub fn txin_witness(rng: &mut R, allow_pegin: bool, allow_issuance: bool) -> TxInWitness {
+    TxInWitness {
+        amount_rangeproof: if allow_issuance && rng.gen_bool(0.4) { Some(rangeproof(rng)) } else { None },
+        inflation_keys_rangeproof: if allow_issuance && rng.gen_bool(0.3) { Some(rangeproof(rng)) } else { None },
+        script_witness: if rng.gen_bool(0.5) { stack(rng) } else { vec![] },
+        pegin_witness: if allow_pegin && rng.gen_bool(0.7) { stack(rng) } else { vec![] },
+    }
+}
+
+#[derive(Clone, Copy, Debug, PartialEq)]
+pub enum InKind { Plain, Coinbase, Pegin, Issuance, Reissuance, PeginIssuance }
+
+pub fn issuance(rng: &mut R, re: bool) -> AssetIssuance {
+    // canonical: not null => at least one of amount / inflation_keys non-null
+    let (amount, keys) = loop {
+        let a = value(rng);
+        let k = if re { Value::Null } else { value(rng) };
+        if !(a.is_null() && k.is_null()) {
+            break (a, k);
+        }
+    };
+    AssetIssuance {
+        asset_blinding_nonce: if re { tweak(rng) } else { Tweak::from_slice(&[0u8; 32]).unwrap() },
+        asset_entropy: arr32(rng),
+        amount,
+        inflation_keys: keys,
+    }
+}
+
+pub fn txin(rng: &mut R, kind: InKind, with_witness: bool) -> TxIn {
+    let prevout = match kind {
+        InKind::Coinbase => OutPoint::default(),
+        _ => OutPoint::new(Txid::from_byte_array(arr32(rng)), match rng.gen_range(0..5) { 0 => 0, 1 => (1 << 30) - 1, 2 => rng.gen_range(0..4), _ => rng.gen_range(0..(1u32 << 30)) }),
+    };
+    let is_pegin = matches!(kind, InKind::Pegin | InKind::PeginIssuance);
+    let has_iss = matches!(kind, InKind::Issuance | InKind::Reissuance | InKind::PeginIssuance);
+    let mut prevout = prevout;
+    if is_pegin && has_iss && prevout.vout == (1 << 30) - 1 {
+        // index 0x3fffffff with both flags would serialize as 0xffffffff (the coinbase index, which carries
+        // no flags): not representable in the format, hence not a canonical value
+        prevout.vout -= 1;
+    }
+    TxIn {
+        previous_output: prevout,
+        is_pegin,
+        script_sig: script(rng),
+        sequence: Sequence(u32_edge(rng)),
+        asset_issuance: if has_iss { issuance(rng, kind == InKind::Reissuance) } else { AssetIssuance::null() },
+        witness: if with_witness { let a = is_pegin || rng.gen_bool(0.1); let b = has_iss || rng.gen_bool(0.1); txin_witness(rng, a, b) } else { TxInWitness::empty() },
+    }
+}
+pub fn in_kind(rng: &mut R) -> InKind {
+    match rng.gen_range(0..8) {
+        0 | 1 | 2 => InKind::Plain,
+        3 => InKind::Pegin,
+        4 => InKind::Issuance,
+        5 => InKind::Reissuance,
+        6 => InKind::PeginIssuance,
+        _ => InKind::Plain,
+    }
+}
+
+pub fn txout_witness(rng: &mut R) -> TxOutWitness {
+    TxOutWitness {
+        surjection_proof: if rng.gen_bool(0.6) { Some(surjproof(rng)) } else { None },
+        rangeproof: if rng.gen_bool(0.6) { Some(rangeproof(rng)) } else { None },
+    }
+}
+pub fn txout(rng: &mut R, with_witness: bool) -> TxOut {
+    TxOut {
+        asset: asset(rng),
+        value: value(rng),
+        nonce: nonce(rng),
+        script_pubkey: script(rng),
+        witness: if with_witness { txout_witness(rng) } else { TxOutWitness::empty() },
+    }
+}
+
+/// witness mode: 0 none, 1 inputs only, 2 outputs only, 3 both (per element random)
+pub fn tx(rng: &mut R) -> Transaction {
+    let wm = rng.gen_range(0..4);
+    let coinbase = rng.gen_bool(0.08);
+    let nin = if coinbase { 1 } else { match rng.gen_range(0..6) { 0 => 0, 1 | 2 => 1, 3 => 2, _ => rng.gen_range(1..5) } };
+    let nout = match rng.gen_range(0..6) { 0 => 0, 1 | 2 => 1, 3 => 2, _ => rng.gen_range(1..5) };
+    let input = (0..nin).map(|_| { let k = if coinbase { InKind::Coinbase } else { in_kind(rng) }; let w = (wm & 1) != 0 && rng.gen_bool(0.7); txin(rng, k, w) }).collect();
+    let output = (0..nout).map(|_| { let w = (wm & 2) != 0 && rng.gen_bool(0.7); txout(rng, w) }).collect();
+    Transaction {
+        version: match rng.gen_range(0..4) { 0 => 2, 1 => 1, _ => rng.gen() },
+        lock_time: LockTime::from_consensus(u32_edge(rng)),
+        input,
+        output,
+    }
+}
+/// a transaction with many inputs/outputs (varint boundary 0xfc/0xfd on the vectors)
+pub fn tx_wide(rng: &mut R, nin: usize, nout: usize) -> Transaction {
+    let input = (0..nin).map(|_| TxIn { previous_output: OutPoint::new(Txid::from_byte_array(arr32(rng)), rng.gen_range(0..10)), ..Default::default() }).collect();
+    let output = (0..nout).map(|_| TxOut { asset: Asset::Explicit(asset_id(rng)), value: Value::Explicit(rng.gen()), nonce: Nonce::Null, script_pubkey: Script::new(), witness: TxOutWitness::empty() }).collect();
+    Transaction { version: 2, lock_time: LockTime::ZERO, input, output }
+}
+
+pub fn full_params(rng: &mut R) -> FullParams {
+    let next = rng.gen_range(0..4);
+    FullParams::new(
+        script(rng),
+        u32_edge(rng),
+        elements::bitcoin::ScriptBuf::from_bytes({ let l = small_len(rng); bytes(rng, l) }),
+        { let l = small_len(rng); bytes(rng, l) },
+        (0..next).map(|_| { let l = small_len(rng); bytes(rng, l) }).collect(),
+    )
+}
+pub fn params(rng: &mut R) -> Params {
+    match rng.gen_range(0..4) {
+        0 => Params::Null,
+        1 => Params::Compact { signblockscript: script(rng), signblock_witness_limit: u32_edge(rng), elided_root: elements::dynafed::ElidedRoot::from_byte_array(arr32(rng)) },
+        2 => Params::Full(full_params(rng)).into_compact().unwrap(),
+        _ => Params::Full(full_params(rng)),
+    }
+}
+pub fn header(rng: &mut R) -> BlockHeader {
+    let ext = if rng.gen_bool(0.5) {
+        BlockExtData::Proof { challenge: script(rng), solution: script(rng) }
+    } else {
+        BlockExtData::Dynafed { current: params(rng), proposed: params(rng), signblock_witness: stack(rng) }
+    };
+    BlockHeader {
+        version: match rng.gen_range(0..3) { 0 => 0x2000_0000, 1 => rng.gen_range(0..(1u32 << 31)), _ => (1u32 << 31) - 1 },
+        prev_blockhash: elements::BlockHash::from_byte_array(arr32(rng)),
+        merkle_root: elements::TxMerkleNode::from_byte_array(arr32(rng)),
+        time: u32_edge(rng),
+        height: u32_edge(rng),
+        ext,
+    }
+}
+pub fn block(rng: &mut R) -> Block {
+    let n = rng.gen_range(0..4);
+    Block { header: header(rng), txdata: (0..n).map(|_| tx(rng)).collect() }
+}
+
+// ---------------------------------------------------------------- mutators
+
+/// one structural mutation of a byte string
+pub fn mutate(rng: &mut R, b: &[u8]) -> Vec<u8> {
+    let mut v = b.to_vec();
+    match rng.gen_range(0..10) {
+        0 if !v.is_empty() => { let i = rng.gen_range(0..v.len()); v[i] ^= 1 << rng.gen_range(0..8); }
+        1 if !v.is_empty() => { let i = rng.gen_range(0..v.len()); v[i] = rng.gen(); }
+        2 if !v.is_empty() => { let n = rng.gen_range(0..v.len()); v.truncate(n); }
+        3 => { let n = rng.gen_range(1..5); v.extend(bytes(rng, n)); }
+        4 if !v.is_empty() => { let i = rng.gen_range(0..v.len()); v.remove(i); }
+        5 => { let i = rng.gen_range(0..=v.len()); v.insert(i, rng.gen()); }
+        6 if !v.is_empty() => { let i = rng.gen_range(0..v.len()); v[i] = [0u8, 1, 0xfc, 0xfd, 0xfe, 0xff, 0x80, 0x7f][rng.gen_range(0..8)]; }
+        7 if v.len() >= 2 => { let i = rng.gen_range(0..v.len() - 1); v.swap(i, i + 1); }
+        8 if !v.is_empty() => { // non-minimal varint in place of a small byte
+            let i = rng.gen_range(0..v.len());
+            let x = v[i];
+            let repl: Vec<u8> = match rng.gen_range(0..3) { 0 => vec![0xfd, x, 0], 1 => vec![0xfe, x, 0, 0, 0], _ => vec![0xff, x, 0, 0, 0, 0, 0, 0, 0] };
+            v.splice(i..i + 1, repl);
+        }
+        _ if !v.is_empty() => { let i = rng.gen_range(0..v.len()); v[i] = v[i].wrapping_add(1); }
+        _ => { v.push(rng.gen()); }
+    }
+    v
 }
